@@ -50,6 +50,30 @@ def run(ctx):
         if not good:
             ctx.fail("name:%s" % m["stem"], "module name %s disagrees with the platform / version it declares (%s)" % (m["stem"], m["version"]),
                      {"module": m["stem"], "declared_version": m["version"], "pack_name": m["pack_name"]})
+    # ---- what a spa reports selects the modules: for every shipped platform x config version x log version the FILES reply, decoded by the
+    #      real handler, must name exactly the config / log modules of those versions (the client builds '<platform>-cfg-<n>' / '-log-<m>' from it)
+    from geckolib.driver import GeckoConfigFileProtocolHandler
+    for p_ in [m for m in mods if m["kind"] == "KPack"]:
+        cfgs = sorted(m["version"] for m in mods if m["kind"] == "KCfg" and m["stem"].startswith(p_["stem"] + "-cfg-"))
+        logs = sorted(m["version"] for m in mods if m["kind"] == "KLog" and m["stem"].startswith(p_["stem"] + "-log-"))
+        for cv in cfgs:
+            for lv in logs:
+                ctx.count("files_reply_module_selection")
+                try:
+                    h = GeckoConfigFileProtocolHandler.response(p_["pack_name"], cv, lv, parms=("1.2.3.4", 10022, b"a", b"b"))
+                    r = GeckoConfigFileProtocolHandler()
+                    r.handle(h._content, ("1.2.3.4", 10022, b"a", b"b"))
+                    got = ("%s-cfg-%s" % (r.plateform_key.lower(), r.config_version), "%s-log-%s" % (r.plateform_key.lower(), r.log_version))
+                except Exception as e:  # noqa
+                    got = ("raises", type(e).__name__)
+                want = ("%s-cfg-%d" % (p_["stem"], cv), "%s-log-%d" % (p_["stem"], lv))
+                if got != want:
+                    ctx.fail("name:files_reply:%s" % p_["stem"], "a spa reporting %s config %d / log %d makes the client load %r instead of %r" % (p_["pack_name"], cv, lv, got, want),
+                             {"platform": p_["pack_name"], "config_version": cv, "log_version": lv, "selected": got, "expected": want})
+                    break
+            else:
+                continue
+            break
     # ---- pinned layouts
     pinned = json.load(open(os.path.join(vf.COQ, "Pinned", "layout.json")))
     cur = {m["stem"]: gen_tables.layout_of(m) for m in mods}
